@@ -303,6 +303,34 @@ def run(ck, F):
                 ck.ok("R2", f"binding:{'reuse' if reuse else 'fresh'}", site, f"prefix -> {'existing registry entry with the same URI' if reuse else 'new Namespace for this URI'}")
             else:
                 ck.violation("R2", "binding-value", site, f"prefix is bound to {ls[:120]}")
+    # a prefix that is in the table keeps what it is bound to: the table is flat (one per document), and what is read after a schema
+    # element — the messages, port types and bindings of the WSDL — resolves its prefixes with the bindings of the `definitions`
+    for (site, k, v, ctx) in ins:
+        absent = False
+        for c in ctx:
+            if c[0] != "alt":
+                continue
+            cond, br = c[1], c[2]
+            while isinstance(cond, tuple) and cond and cond[0] == "not":
+                cond, br = cond[1], not br
+            text = og.nf_str(cond)
+            if "namespace_lookup" not in text:
+                continue
+            if isinstance(cond, tuple) and cond[0] == "call" and str(cond[1]).rsplit("::", 1)[-1] == "contains_key" and br is False:
+                absent = True
+            if isinstance(cond, tuple) and cond[0] == "islet" and ((str(cond[1]).startswith("Some(") and br is False) or (str(cond[1]).rsplit("::", 1)[-1] == "None" and br is True)):
+                absent = True
+            if isinstance(cond, tuple) and cond[0] == "call" and str(cond[1]).rsplit("::", 1)[-1] in ("is_some",) and br is False:
+                absent = True
+            if isinstance(cond, tuple) and cond[0] == "call" and str(cond[1]).rsplit("::", 1)[-1] in ("is_none",) and br is True:
+                absent = True
+        if absent:
+            ck.ok("R2", "binding-once", site, "a prefix is bound only when the table does not hold it yet")
+        else:
+            ck.violation("R2", "binding-once", site,
+                         "a prefix that is in the table already can be bound again (the insertion is not under `the table does not hold the prefix`): the "
+                         "bindings of the enclosing `definitions` are lost to the last schema that re-declared the prefix, and the messages, port types and "
+                         "bindings read afterwards resolve `tns:..` in that schema's namespace")
     if ins and kinds != {"reuse", "fresh"}:
         ck.violation("R2", "binding-alternatives", ins[0][0], f"the prefix table is only ever filled with {sorted(kinds)} entries: a declared prefix must be bound to the "
                      f"registry's entry for its URI when there is one and to a new Namespace otherwise")
